@@ -13,8 +13,10 @@ package main
 //
 // plan = one letter per attempt, in order ("-" = no fault): f = the attempt fails without effect (a forwarded
 // request is refused by the leader's RPC endpoint before it is executed; at the leader: the Raft call fails),
-// l = a forwarded request is executed by the leader but the answer is an error (lost reply). Attempts beyond
-// the plan are healthy. lead = who led when the step was issued; res = ok|err; fwd = forwarded requests the
+// l = a forwarded request is executed by the leader but the answer is an error (lost reply), x (first letter only,
+// call issued at the leader) = the caller hands the leadership over between looking up the leader and calling Raft:
+// its Raft call fails with ErrNotLeader, later attempts are forwarded to the new leader (<lead> names the new
+// leader then). Attempts beyond the plan are healthy. lead = who led when the step was issued; res = ok|err; fwd = forwarded requests the
 // leader's endpoint received during the call; loc = Raft calls (raftWrapper.AddPeer / RemovePeer) made by the
 // caller itself; has = all|none|mixed: which of the other running peers report j after the step (everybody
 // caught up). Peer 3 is a server that never runs (only its identity is added), 4 is never added, 9 is the
@@ -26,6 +28,7 @@ import (
 	"context"
 	"fmt"
 	"path/filepath"
+	"runtime"
 	"sort"
 	"strconv"
 	"strings"
@@ -47,7 +50,36 @@ type spanCounter struct {
 	n  map[trace.TraceID]int
 }
 
+// goid: the id of the running goroutine (a call made at the leader runs redirectToLeader and the Raft call in the
+// caller's goroutine: that is how a span is attributed to the call under test).
+func goid() uint64 {
+	var b [64]byte
+	n := runtime.Stack(b[:], false)
+	f := strings.Fields(string(b[:n]))
+	if len(f) < 2 {
+		return 0
+	}
+	id, _ := strconv.ParseUint(f[1], 10, 64)
+	return id
+}
+
+// armed: goroutine id -> what to do when its next redirectToLeader span ends (that is: when redirectToLeader
+// returned "you are the leader", right before the Raft call)
+var armedMu sync.Mutex
+var armed = map[uint64]func(){}
+
 func (s *spanCounter) ExportSpan(sd *trace.SpanData) {
+	if sd.Name == "consensus/redirectToLeader" {
+		armedMu.Lock()
+		id := goid()
+		f := armed[id]
+		delete(armed, id)
+		armedMu.Unlock()
+		if f != nil {
+			f()
+		}
+		return
+	}
 	if sd.Name != "consensus/raft/AddPeer" && sd.Name != "consensus/RemovePeer" {
 		return
 	}
@@ -62,7 +94,11 @@ var spans = &spanCounter{n: map[trace.TraceID]int{}}
 var spansOnce sync.Once
 
 func countedCtx() (context.Context, func() int) {
-	spansOnce.Do(func() { trace.RegisterExporter(spans) })
+	spansOnce.Do(func() {
+		// every span is exported (redirectToLeader starts root spans from the component's own context)
+		trace.ApplyConfig(trace.Config{DefaultSampler: trace.AlwaysSample()})
+		trace.RegisterExporter(spans)
+	})
 	ctx, sp := trace.StartSpan(context.Background(), "c17/call", trace.WithSampler(trace.AlwaysSample()))
 	id := sp.SpanContext().TraceID
 	spans.mu.Lock()
@@ -144,8 +180,8 @@ func validPlan(p string) bool {
 	if len(p) == 0 || len(p) > 12 {
 		return false
 	}
-	for _, c := range p {
-		if c != 'f' && c != 'l' {
+	for i, c := range p {
+		if c != 'f' && c != 'l' && !(c == 'x' && i == 0) {
 			return false
 		}
 	}
@@ -210,10 +246,17 @@ func (w *cworld) execFault(op string) (string, int, bool) {
 		origLead = atoi(f[4][1:])
 	}
 	at := w.resolve(f[1], origLead, l)
+	plan := f[3]
+	xfer := strings.HasPrefix(plan, "x")
+	if xfer {
+		at = l // only the leader can lose the leadership in mid-call
+	}
 	if at == nil || !at.up {
 		return "", 0, true
 	}
-	plan := f[3]
+	if xfer && (j == nullPeer || j == l.idx || len(w.followers(l)) == 0) {
+		return "", 0, true
+	}
 	if j == nullPeer {
 		// only meaningful at the leader (the model takes a forwarded attempt to be a healthy one)
 		if at != l || f[0] != "fadd" {
@@ -228,13 +271,36 @@ func (w *cworld) execFault(op string) (string, int, bool) {
 	if plan != "-" && at != l {
 		fl.plan = plan
 	}
+	if xfer {
+		fl.plan = plan[1:] // what the new leader's endpoint does to the forwards that follow
+	}
 	fl.mu.Unlock()
-	if at == l && j != nullPeer {
+	if at == l && j != nullPeer && !xfer {
 		plan = "-" // nothing is forwarded: no fault is injected
 	}
 	ctx, done := countedCtx()
 	var err error
+	var newLead *cnode
+	xferOK := true
 	ok := within(opTimeout, func() {
+		if xfer {
+			armedMu.Lock()
+			armed[goid()] = func() {
+				if e := l.cc.VerifLeadershipTransfer(); e != nil {
+					xferOK = false
+					return
+				}
+				for i := 0; i < 100; i++ {
+					if n := w.leader(); n != nil && n != l {
+						newLead = n
+						return
+					}
+					time.Sleep(20 * time.Millisecond)
+				}
+				xferOK = false
+			}
+			armedMu.Unlock()
+		}
 		if f[0] == "fadd" {
 			err = at.cc.AddPeer(ctx, pid)
 		} else {
@@ -248,6 +314,12 @@ func (w *cworld) execFault(op string) (string, int, bool) {
 	fl.mu.Unlock()
 	if !ok {
 		return "", 0, false
+	}
+	if xfer {
+		if !xferOK || newLead == nil || w.leader() != newLead {
+			return "", 0, false
+		}
+		return fmt.Sprintf("%s@%d@%d@%s@l%d@%s@%d@%d", f[0], at.idx, j, plan, newLead.idx, resTok(err), seen, loc), j, true
 	}
 	if j != l.idx {
 		if l2 := w.leader(); l2 != l {
@@ -460,8 +532,17 @@ func genFaultScript(r *common.Rng, k int, tier string) cscript {
 			s.ops = append(s.ops, fmt.Sprintf("fadd@%s@%d@%s", where(), r.Intn(len(s.init)), plan(i))) // present
 		case c < 78:
 			s.ops = append(s.ops, fmt.Sprintf("frm@%s@4@%s", where(), plan(i))) // absent
-		case c < 86:
+		case c < 82:
 			s.ops = append(s.ops, fmt.Sprintf("fadd@L@%d@-", nullPeer))
+		case c < 90:
+			// the leader loses the leadership in mid-call; the forwards that follow meet 0, 1 or all failures
+			rest := []string{"", "", "f", "l", strings.Repeat("f", 9)}[r.Intn(5)]
+			if ghost {
+				s.ops = append(s.ops, fmt.Sprintf("frm@L@3@x%s", rest))
+			} else {
+				s.ops = append(s.ops, fmt.Sprintf("fadd@L@3@x%s", rest))
+			}
+			ghost = !ghost
 		default:
 			s.ops = append(s.ops, fmt.Sprintf("pin@%s@%s", where(), fmt.Sprintf(pinShapes[r.Intn(len(pinShapes))], r.Intn(5))))
 		}
